@@ -232,6 +232,11 @@ func Labels(s *Src) bgp.MPLSLabelStack {
 	if s.Chance(1, 2) {
 		n = 1
 	}
+	if s.SingleLabel {
+		// with a PREFIX_SID attribute the label field carries (part of) an SRv6 SID and is read as
+		// exactly one 3-octet field without bottom-of-stack processing (RFC 9252 section 4)
+		n = 1
+	}
 	ls := make([]uint32, n)
 	for i := range ls {
 		ls[i] = Label(s)
@@ -283,6 +288,7 @@ func NLRI(s *Src, f bgp.Family) bgp.NLRI {
 
 func PathNLRIs(s *Src, f bgp.Family, max int) []bgp.PathNLRI {
 	n := 1 + s.Len(max-1)
+	n = maxNLRIFor(f, n)
 	out := make([]bgp.PathNLRI, 0, n)
 	for i := 0; i < n; i++ {
 		id := uint32(0)
@@ -558,8 +564,11 @@ func Update(s *Src) (*bgp.BGPMessage, []bgp.Family) {
 		fams = []bgp.Family{bgp.RF_IPv4_UC}
 	case 2, 3: // MP_REACH
 		f := Family(s)
+		rest := AttrSet(s, true, 8)
+		s.SingleLabel = hasPrefixSID(rest)
 		reach, _ := bgp.NewPathAttributeMpReachNLRI(f, PathNLRIs(s, f, 5), MPNextHops(s, f)...)
-		attrs = append([]bgp.PathAttributeInterface{reach}, AttrSet(s, true, 8)...)
+		s.SingleLabel = false
+		attrs = append([]bgp.PathAttributeInterface{reach}, rest...)
 		if s.Bool() { // MP_REACH last
 			attrs = append(attrs[1:], attrs[0])
 		}
@@ -575,15 +584,27 @@ func Update(s *Src) (*bgp.BGPMessage, []bgp.Family) {
 		fams = []bgp.Family{f}
 	default: // reach + unreach of one family + body withdraw
 		f := Family(s)
+		rest := AttrSet(s, true, 6)
+		s.SingleLabel = hasPrefixSID(rest)
 		reach, _ := bgp.NewPathAttributeMpReachNLRI(f, PathNLRIs(s, f, 3), MPNextHops(s, f)...)
 		unreach, _ := bgp.NewPathAttributeMpUnreachNLRI(f, PathNLRIs(s, f, 3))
-		attrs = append([]bgp.PathAttributeInterface{unreach, reach}, AttrSet(s, true, 6)...)
+		s.SingleLabel = false
+		attrs = append([]bgp.PathAttributeInterface{unreach, reach}, rest...)
 		if s.Bool() {
 			withdrawn = PathNLRIs(s, bgp.RF_IPv4_UC, 3)
 		}
 		fams = []bgp.Family{f, bgp.RF_IPv4_UC}
 	}
 	return bgp.NewBGPUpdateMessage(withdrawn, attrs, nlri), fams
+}
+
+func hasPrefixSID(attrs []bgp.PathAttributeInterface) bool {
+	for _, a := range attrs {
+		if a.GetType() == bgp.BGP_ATTR_TYPE_PREFIX_SID {
+			return true
+		}
+	}
+	return false
 }
 
 func dedupe(in []bgp.PathAttributeInterface) []bgp.PathAttributeInterface {
